@@ -1,6 +1,8 @@
 package main
 
 import (
+	"go/constant"
+	"go/ast"
 	"fmt"
 	"go/token"
 	"sort"
@@ -142,6 +144,9 @@ type tierUse struct {
 	order        int
 }
 
+// tierAssume fixes configuration flags (field name -> value) for one evaluation of the tier table.
+var tierAssume map[string]bool
+
 // evalTierTable computes, for function f, the tier calls each category may reach.
 func evalTierTable(p *Prog, f *ssa.Function, consts map[int64]string, fixed map[string]bool, depth int, async bool, out map[string][]tierUse, orderBase *int) {
 	if f == nil || len(f.Blocks) == 0 || depth > 3 {
@@ -186,6 +191,23 @@ func evalTierTable(p *Prog, f *ssa.Function, consts map[int64]string, fixed map[
 		}
 		if len(b.Instrs) > 0 {
 			if iff, ok := b.Instrs[len(b.Instrs)-1].(*ssa.If); ok {
+				// a configuration flag evaluated under an assumption (tierAssume): only the consistent
+				// successor is followed
+				if c0, pol := normCond(iff.Cond, true); len(tierAssume) > 0 {
+					if _, fld, _, isF := FieldOf(c0); isF {
+						if val, has := tierAssume[fld]; has {
+							taken := 0
+							if val != pol {
+								taken = 1
+							}
+							for i := range succSets {
+								if i != taken {
+									succSets[i] = map[string]bool{}
+								}
+							}
+						}
+					}
+				}
 				if bo, ok := iff.Cond.(*ssa.BinOp); ok && (bo.Op == token.EQL || bo.Op == token.NEQ) && isCat(bo.X) {
 					if k, isC := ConstInt(bo.Y); isC {
 						name := consts[k]
@@ -380,6 +402,32 @@ func runC14(r *Report) {
 			r.Ob("R-C14-1", pos("Set"), setT["persistent"], "persistent keys are written to persistence", "Storage.Set", "persistent-persisted")
 		}
 	}
+	// the persistence switch points the same way in every operation: with EnablePersistent the
+	// persistent categories reach the persistent tier in Set, Get, Exists and Delete alike; without it
+	// nothing does (an inverted test in one operation makes it disagree with the others)
+	for _, flag := range []bool{true, false} {
+		tierAssume = map[string]bool{"EnablePersistent": flag}
+		got := map[string]map[string]map[string]bool{}
+		for _, op := range []string{"Set", "Get", "Delete", "Exists"} {
+			tbl := map[string][]tierUse{}
+			n := 0
+			evalTierTable(r.P, r.P.Fn(hybPkg, "Storage."+op), consts, nil, 0, false, tbl, &n)
+			got[op] = map[string]map[string]bool{}
+			for _, cat := range hybCategories {
+				got[op][cat] = map[string]bool{}
+				for _, u := range tbl[cat] {
+					got[op][cat][u.tier] = true
+				}
+			}
+		}
+		tierAssume = nil
+		for _, cat := range []string{"Persistent", "SharedPersistent"} {
+			for _, op := range []string{"Set", "Get", "Delete", "Exists"} {
+				has := got[op][cat]["persistent"]
+				r.Ob("R-C14-1", pos(op), has == flag, fmt.Sprintf("with EnablePersistent=%v, %s on a %s key reaches the persistent tier: %v (all four operations must agree with the switch)", flag, op, cat, has), "Storage."+op, fmt.Sprintf("persist-switch:%s:%v", cat, flag))
+			}
+		}
+	}
 	// SetNX / IncrBy operate on a tier that Set writes and Get reads for the same key
 	for _, op := range []string{"SetNX", "IncrBy"} {
 		for _, cat := range hybCategories {
@@ -474,7 +522,18 @@ func runC14(r *Report) {
 			}
 			r.Ob("R-C14-3", 0, got == "shared", fmt.Sprintf("cross-node key family %q classifies as %s (want shared: visible to every node, TTL'd, not persisted)", pre, got), hybPkg, "cross-node:"+pre)
 		}
-		for _, pre := range []string{"tunnox:runtime:", "tunnox:session:", "tunnox:jwt:", "tunnox:temp:"} {
+		// the runtime-only families are the ones the package itself declares (var RuntimePrefixes),
+		// read from the source on every run; the four confirmed by hand are the fallback minimum
+		runtimeOnly := map[string]bool{"tunnox:runtime:": true, "tunnox:session:": true, "tunnox:jwt:": true, "tunnox:temp:": true}
+		for _, pre := range packageStringSlice(r.P, hybPkg, "RuntimePrefixes") {
+			runtimeOnly[pre] = true
+		}
+		var rts []string
+		for k := range runtimeOnly {
+			rts = append(rts, k)
+		}
+		sort.Strings(rts)
+		for _, pre := range rts {
 			got := hybridCategory(r, pre+"x")
 			r.Ob("R-C14-3", 0, got != "persistent" && got != "shared-persistent", fmt.Sprintf("runtime-only family %q classifies as %s (must never be persisted)", pre, got), hybPkg, "runtime-only:"+pre)
 		}
@@ -574,4 +633,43 @@ func checkSharedFamilyTiers(r *Report, rule string) {
 		ok := len(touched) == 1 && touched["keycache"]
 		r.Ob(rule, f.Pos(), ok, fmt.Sprintf("tiered facade %s on a shared (cross-node) key touches %s (want exactly the key cache: what one node writes or deletes is what every node reads)", op, setStr(touched)), "hybrid.Storage."+op, "shared-family-tier")
 	}
+}
+
+// packageStringSlice reads the string elements of a package-level `var name = []string{...}` from
+// the syntax of pkg.
+func packageStringSlice(p *Prog, pkg, name string) []string {
+	var out []string
+	pk := p.ByPath[Module+"/"+pkg]
+	if pk == nil {
+		return out
+	}
+	for _, file := range pk.Syntax {
+		for _, d := range file.Decls {
+			gd, ok := d.(*ast.GenDecl)
+			if !ok {
+				continue
+			}
+			for _, sp := range gd.Specs {
+				vs, ok := sp.(*ast.ValueSpec)
+				if !ok {
+					continue
+				}
+				for i, n := range vs.Names {
+					if n.Name != name || i >= len(vs.Values) {
+						continue
+					}
+					cl, ok := vs.Values[i].(*ast.CompositeLit)
+					if !ok {
+						continue
+					}
+					for _, e := range cl.Elts {
+						if tv, ok := pk.TypesInfo.Types[e]; ok && tv.Value != nil && tv.Value.Kind() == constant.String {
+							out = append(out, constant.StringVal(tv.Value))
+						}
+					}
+				}
+			}
+		}
+	}
+	return out
 }
